@@ -1,12 +1,7 @@
 (* Tab completion, declaratively (spec side of C11). *)
-From EC Require Import Base Model.Utils Model.Editor Model.Cli Spec.ArgSpec.
+From EC Require Import Base Model.Utils Model.Editor Model.Cli Spec.Utf8Spec Spec.ArgSpec.
 
-(* longest common prefix of two char lists / of a non-empty list of char lists *)
-Fixpoint lcp2 (a b : list (list N)) : list (list N) :=
-  match a, b with
-  | x :: a', y :: b' => if list_eqb x y then x :: lcp2 a' b' else []
-  | _, _ => []
-  end.
+(* lcp2: longest common prefix of two char lists, see Utf8Spec *)
 Definition lcp_all (l : list (list (list N))) : list (list N) :=
   match l with [] => [] | x :: r => fold_left lcp2 r x end.
 
